@@ -465,14 +465,23 @@ impl<'a> Lexer<'a> {
     /// Gets the current span of the lexer.
     pub fn span(&self) -> SourceSpan {
         let mut span = self.0.span();
-        if span.end == self.0.source().len() {
+        let source = self.0.source();
+        if span.end == source.len() {
             // Currently miette silently fails to display a label
             // if the span is at the end of the source; this means
             // we can't properly show the "end of input" span.
-            // For now, have the span point at the last byte in the source.
+            // For now, have the span point at the character holding the
+            // byte before the span (the whole character, so that the span
+            // never starts or ends inside a multi-byte character); an
+            // empty source has no character to point at.
             // See: https://github.com/zkat/miette/issues/219
-            span.start = span.start.saturating_sub(1);
-            span.end = span.start + 1;
+            let mut start = span.start.saturating_sub(1);
+            while !source.is_char_boundary(start) {
+                start -= 1;
+            }
+            let len = source[start..].chars().next().map_or(0, char::len_utf8);
+            span.start = start;
+            span.end = start + len;
         }
 
         to_source_span(span)
